@@ -301,6 +301,7 @@ def classify(cls, conf, row, texts):
     sconv = None
     for conv, pat in [("none", M + r" = " + P + r";"),
                       ("none", r"\w+ = " + M + r" = " + P + r";"),
+                      ("none", M + r" = static_cast<\s*\w+\s*>\(" + P + r"\);"),
                       ("be", M + r" = Endian::host_to_be(?:<\w+>)?\(" + P + r"\);"),
                       ("le", M + r" = Endian::host_to_le(?:<\w+>)?\(" + P + r"\);"),
                       ("bool01", M + r" = \(" + P + r"\)\s*\? 1 : 0;"),
